@@ -15,6 +15,8 @@ sufficient-decrease constant.
 -/
 import PyttbModel.Lemmas.CpAprObjective
 import PyttbModel.Lemmas.CpAprDescent
+import PyttbModel.Lemmas.CpAprMajoriseModel
+import Mathlib.Analysis.SpecialFunctions.Log.Basic
 namespace Pyttb
 open Pyttb.CpApr Pyttb.CpApr.Gen
 
@@ -241,6 +243,11 @@ theorem C11_objective_sparse (log : α → α) (c : Consts α) (cfg : Cfg α) (a
   exact logLik_sparse log S (normalizeSort_nonneg log hFM.1 sortPerm)
     (normalizeSort_shape _ sortPerm hsp hFM.2) hN
 
+/-- The objective theorems are about `normalize(weight_factor=0, normtype=1)`; this is what
+`tt_loglikelihood` calls (values read from the source by the translator: a change there breaks
+this proof instead of silently invalidating `C11_objective_*`). -/
+theorem C11_loglik_normalisation_anchor : Gen.llWeightFactor = 0 ∧ Gen.llNormType = 1 := by decide
+
 /-! ### the returned model denotes the tensor of the last loop state -/
 
 /-- The clean-up `normalize(sort=True, normtype=1)` and the in-place
@@ -287,27 +294,48 @@ theorem C11_initial_normalize_denote (log : α → α) (K : Ktensor α) (h : Non
 
 /-! ### likelihood: what is proved about "at least as likely as the start" -/
 
-/-- PARTIAL.  Covered: one call of the projected line search of PDNR / PQNR, for ANY direction.
-Either the multiplicative fall-back is what is returned, or the returned row is at least as
-likely as the row it started from (`-loglik_row(new) ≤ -loglik_row(old)`): it passed the
-sufficient-decrease test `f_new ≤ f_old + 1e-4·gDotd` with `gDotd ≤ 0`, or it was the last
-trial and not worse.
-NOT covered (checked on the implementation by the harness for every run instead): that the
-multiplicative step (MU inner step, and the fall-back) does not decrease the likelihood — a
-majorisation argument that needs concavity of `log`, which is a parameter here; that the
-row-wise decrease carries over to the tensor-level likelihood through `redistribute` /
-`normalize` (it does, they preserve the tensor: `C11_returned_model_denote`) and across
-modes; the zero-row patch and the inadmissible-zero bump (these CAN lower the likelihood of
-the iterate by a bounded amount). -/
+/-- PARTIAL.  "The result is at least as likely as the starting guess" is proved one step at a
+time, for the two kinds of step that change a row of a factor matrix:
+
+(1) ONE MULTIPLICATIVE STEP `m ↦ m ⊙ phi_row` — an inner MU update of one row of the factor
+    (`calculate_phi` row `i` is `phi_row` of the data row `i`), and the fall-back of the line
+    search — does not increase the negative row log-likelihood `Σ_r m_r − Σ_j x_j log v_j`.
+    This is the majorisation (EM) argument; it uses of `log` only `log t ≤ t − 1` and
+    `log (s t) = log s + log t` on positive numbers (true for the natural logarithm), and the
+    `epsDivZero`-free hypothesis `eps ≤ v_j`, `0 < v_j` for every data column `j`
+    (`v = m · Piᵀ`), under which `maximum(v, eps) = v`.
+(2) ONE CALL OF THE PROJECTED LINE SEARCH of PDNR / PQNR, for ANY direction: either the
+    multiplicative fall-back is what is returned (covered by (1) up to its projection, which is
+    the identity on non-negative rows), or the returned row is at least as likely as the row
+    it started from: it passed `f_new ≤ f_old + 1e-4·gDotd` with `gDotd ≤ 0`, or it was the last
+    trial and not worse.
+
+NOT covered (checked on the implementation by the harness for every run instead): the chain
+from rows to the tensor-level likelihood across modes and outer iterations (the row objective
+equals the tensor objective restricted to the row only while the other factors have unit
+column sums; `redistribute` / `normalize` themselves preserve the tensor:
+`C11_returned_model_denote`); steps where `epsDivZero` is active; the zero-row patch and the
+inadmissible-zero bump, which move the iterate by `1e-8` / `kappa` and CAN lower the
+likelihood of the iterate. -/
 theorem C11_likelihood_not_worse_partial (log : α → α) (c : Consts α) (hc : 0 ≤ c.suffDecr)
     (sparse : Bool) (dir grad mOld x : List α) (Pi : Mat α) (phi : List α) (R : Nat) :
-    lineSearch (NumOps.ofField log) c sparse dir grad mOld x Pi phi R =
+    -- (1) multiplicative step
+    ((∀ t, 0 < t → log t ≤ t - 1) → (∀ s t, 0 < s → 0 < t → log (s * t) = log s + log t) →
+      ∀ eps : α, NonnegL mOld → NonnegM Pi → NonnegL x →
+      (∀ j < Pi.length, eps ≤ rowV Pi mOld R j ∧ 0 < rowV Pi mOld R j) →
+      rowNegLL (NumOps.ofField log) sparse x Pi
+        ((List.range R).map fun k =>
+          lsFallback (vget mOld k) (vget (rowPhi (NumOps.ofField log) eps x Pi mOld R) k)) R ≤
+      rowNegLL (NumOps.ofField log) sparse x Pi mOld R) ∧
+    -- (2) line search
+    (lineSearch (NumOps.ofField log) c sparse dir grad mOld x Pi phi R =
         ((List.range R).map fun k =>
           project (NumOps.ofField log).gt0 (lsFallback (vget mOld k) (vget phi k))) ∨
-    rowNegLL (NumOps.ofField log) sparse x Pi
+     rowNegLL (NumOps.ofField log) sparse x Pi
         (lineSearch (NumOps.ofField log) c sparse dir grad mOld x Pi phi R) R ≤
-      rowNegLL (NumOps.ofField log) sparse x Pi mOld R :=
-  lineSearch_descent log c hc sparse dir grad mOld x Pi phi R
+      rowNegLL (NumOps.ofField log) sparse x Pi mOld R) :=
+  ⟨fun hL1 hL2 eps hm hPi hx hv => mu_step_not_worse log hL1 hL2 eps sparse x Pi mOld R hm hPi hx hv,
+   lineSearch_descent log c hc sparse dir grad mOld x Pi phi R⟩
 
 /-! ### rejected requests -/
 
@@ -352,6 +380,12 @@ example : validate (NumOps.ofField (fun x : ℚ => x)) (Consts.ofGen id)
 
 example : (0 : ℚ) ≤ (Consts.ofGen (α := ℚ) id).zeroRowFill ∧ (0 : ℚ) ≤ (Consts.ofGen (α := ℚ) id).suffDecr := by
   constructor <;> decide +kernel
+
+/-- The two facts about `log` that part (1) of `C11_likelihood_not_worse_partial` uses hold for the
+natural logarithm over ℝ. -/
+example : (∀ t : ℝ, 0 < t → Real.log t ≤ t - 1) ∧
+    (∀ s t : ℝ, 0 < s → 0 < t → Real.log (s * t) = Real.log s + Real.log t) :=
+  ⟨fun _ ht => Real.log_le_sub_one_of_pos ht, fun _ _ hs ht => Real.log_mul hs.ne' ht.ne'⟩
 
 /-- The solvers do return on such requests (so the theorems about `cpApr … = .ok out` are not
 vacuous): MU on dense data, and PDNR on sparse data with steepest descent as the direction. -/
